@@ -8,7 +8,7 @@
      forall h ops, wf_hier h = true -> run_cy cached false h (w0 h) ops = run_py h (p0 h) ops
    is FALSE for the code as it is, for both values of cached (C27_*_refuted below). *)
 From Coq Require Import ZArith List Bool.
-From CyVerif Require Import Model.M_Override Proof.P_Override.
+From CyVerif Require Import Model.M_Override Proof.P_Override Model.M_VTable Proof.P_VTable.
 Import ListNotations.
 Open Scope Z_scope.
 
@@ -118,3 +118,55 @@ Example C27_fx_on_witness :
   let ops := [New 2; CallC 0; SetClass 1 (Fn 7); CallC 0; New 1; CallC 1; CallC 1] in
   run_cy true true h (w0 h) ops = [RBody 0; RFn 7; RFn 7; RFn 7].
 Proof. vm_compute. reflexivity. Qed.
+
+(* ---------- how a C-level call reaches the method: vtable slots, adapters, static types ----------
+   chain = the declarations of m along the extension types from the root down (cdef / cpdef, number of
+   optional arguments, final); build = the vtable as Symtab.declare_cfunction +
+   CFuncDefNode.generate_wrapper_functions + generate_exttype_vtable_init_code fill it (one slot per C
+   signature, adapters in the older slots); vt_call askip ch t = what a call through a reference
+   statically typed t runs on an object whose extension type has chain ch (askip = the constant the
+   adapter passes for skip_dispatch, false = '0' in the code as it is); vt_ref = the most-derived
+   declaration: the cdef body, or the cpdef C entry point with skip_dispatch = 0.
+   For ALL chains the compiler accepts, ALL static types: *)
+Theorem C27_vtable_call_correct : forall ch t, wf_chain ch None = true -> vt_call false ch t = vt_ref ch t.
+Proof. exact vt_call_correct. Qed.
+Print Assumptions C27_vtable_call_correct.
+
+(* an adapter passing skip_dispatch = 1: cdef m; cpdef m in the subclass; call through the base type *)
+Theorem C27_vtable_adapter_skip_refuted : exists ch t, wf_chain ch None = true /\ vt_call true ch t <> vt_ref ch t.
+Proof. exact vt_call_askip_refuted. Qed.
+Print Assumptions C27_vtable_adapter_skip_refuted.
+
+(* end to end: every history of class / instance mutations, Python-level calls and C-level calls
+   through ANY static type (VCallT t o) invokes what Python lookup selects - the cdef body when the
+   most-derived C declaration is a plain cdef method (not visible to Python) *)
+Theorem C27_vdispatch_eq_nocache_partial : forall h vd fx ops, wf_hier h = true -> wf_vt h vd = true ->
+  no_ext_def h = true ->
+  vrun_cy false false fx h vd (w0 h) ops = vrun_py h vd (p0 h) ops.
+Proof. exact vdispatch_eq_nocache. Qed.
+Print Assumptions C27_vdispatch_eq_nocache_partial.
+
+Theorem C27_vdispatch_eq_cached_fx : forall h vd ops, wf_hier h = true -> wf_vt h vd = true ->
+  no_ext_def h = true ->
+  vrun_cy false true true h vd (w0 h) ops = vrun_py h vd (p0 h) ops.
+Proof. exact vdispatch_eq_cached_fx. Qed.
+Print Assumptions C27_vdispatch_eq_cached_fx.
+
+(* A: cdef m; B(A): cpdef m; class P(B) overrides m; P(); C call through B and through A *)
+Theorem C27_vdispatch_adapter_skip_refuted : exists h vd ops, wf_hier h = true /\ wf_vt h vd = true /\
+  no_ext_def h = true /\
+  vrun_cy true false false h vd (w0 h) ops <> vrun_py h vd (p0 h) ops /\
+  vrun_cy false false false h vd (w0 h) ops = vrun_py h vd (p0 h) ops.
+Proof. exact vdispatch_askip_refuted. Qed.
+Print Assumptions C27_vdispatch_adapter_skip_refuted.
+
+(* three slots (cdef, cdef + 1 optional argument, cpdef + 1 optional argument), the newest one
+   re-used by a fourth class: all older slots hold adapters to the most-derived implementation *)
+Example C27_vtable_nonvacuous :
+  let ch := [(0%nat, VDecl false 0 false); (1%nat, VDecl false 1 false); (2%nat, VDecl true 1 false);
+             (3%nat, VDecl true 1 false)] in
+  wf_chain ch None = true /\
+  map s_ent (build false ch []) = [EImpl 3; EAdapt 3 (SkConst false) OpFwd; EAdapt 3 (SkConst false) OpNull] /\
+  map s_cls (build false ch []) = [2%nat; 1%nat; 0%nat] /\
+  vt_call false ch 0 = Some (VEntry 3 false) /\ vt_call false ch 3 = Some (VEntry 3 false).
+Proof. vm_compute. repeat split; reflexivity. Qed.
